@@ -288,6 +288,7 @@ private:
     if (is_deallocated()) {
       return;
     }
+    LIBCUCKOO_VERIF_EVENT(EV_BUCKETS_FREE, this, 0);
     // The bucket default constructor is nothrow, so we don't have to
     // worry about dealing with exceptions when constructing all the
     // elements.
